@@ -1,5 +1,6 @@
 from __future__ import annotations
 
+import os
 from typing import Any, List
 
 import torch
@@ -16,6 +17,11 @@ from torchtree.core.utils import (
 )
 from torchtree.inference.mcmc.operator import MCMCOperator
 from torchtree.typing import ID
+
+# verification hook (off unless TORCHTREE_VERIF=1): a callable set by the
+# verification harness that receives the locals of MCMC.run once per iteration
+_VERIF_ENABLED = os.environ.get("TORCHTREE_VERIF") == "1"
+_VERIF_TRACE = None
 
 
 @register_class
@@ -107,6 +113,9 @@ class MCMC(Identifiable, Runnable):
                 operator.accept()
             else:
                 operator.reject()
+
+            if _VERIF_ENABLED and _VERIF_TRACE is not None:
+                _VERIF_TRACE(locals())
 
             if self.every != 0 and self._epoch % self.every == 0:
                 step_size = 0
